@@ -162,11 +162,12 @@ func VerifCSSNotAColor(n int) {
 
 var verifUnits = []string{"", "px", "%", "em", "s", "deg", "fr", "dpi", "x"}
 
-// reference: units for which a zero value may lose its unit (CSS Values: <length> and, in practice, <angle>)
-var rcZeroUnitOK = []string{"px", "em", "rem", "ex", "ch", "vw", "vh", "vmin", "vmax", "cm", "mm", "q", "in", "pt", "pc", "deg", "grad", "rad", "turn"}
+// reference: units for which a zero value may lose its unit as a property value (CSS Values: <length> only; a bare
+// zero <angle> is a legacy form accepted in the arguments of transform / gradient / filter functions, not in general)
+var rcZeroUnitOK = []string{"px", "em", "rem", "ex", "ch", "vw", "vh", "vmin", "vmax", "cm", "mm", "q", "in", "pt", "pc"}
 
 // VerifCSSNumber: width:<number lexeme of n symbolic bytes><unit>: same number, same unit (unit may be dropped only for
-// zero lengths/angles).
+// zero lengths).
 func VerifCSSNumber(n int) {
 	num := vBytes("num", n)
 	vAssume(refIsNumber(num, true))
@@ -212,7 +213,7 @@ func VerifCSSNumber(n int) {
 		if prop == "flex-basis" && unit == "%" && len(ounit) == 0 && a.zero {
 			vKnown("C04-F25") // zero percentage basis written as zero length
 		}
-		vAssert(len(ounit) == 0 && a.zero && zeroOK, "unit dropped although the value is not a zero length/angle")
+		vAssert(len(ounit) == 0 && a.zero && zeroOK, "unit dropped although the value is not a zero length")
 	}
 	vAssert(len(out) <= len(val), "never longer")
 	vReach("end")
@@ -847,4 +848,54 @@ func VerifCSSIntegerProp(n int) {
 	}
 	vAssert(refSame(refParse(num), refParse(onum)), "same integer value")
 	vReach("end")
+}
+
+// VerifCSSZeroAngle (C04): a zero <angle>, <time>, <frequency> or <resolution> as a property value keeps its unit
+// (rotate:0 / transition-delay:0 are invalid declarations).
+func VerifCSSZeroAngle(n int) {
+	t := [][3]string{
+		{"rotate", "", "a"}, {"rotate", "x ", "a"}, {"offset-rotate", "", "a"}, {"offset-rotate", "auto ", "a"}, {"image-orientation", "", "a"}, {"font-style", "oblique ", "a"},
+		{"transition-delay", "", "t"}, {"animation-duration", "", "t"}, {"transition", "color ", "t"}, {"image-resolution", "", "r"}, {"pitch", "", "f"},
+	}[vChoice("prop", 11)]
+	units := map[string][]string{"a": {"deg", "grad", "rad", "turn", "DEG"}, "t": {"s", "ms"}, "r": {"dpi", "dppx", "dpcm"}, "f": {"hz", "khz"}}[t[2]]
+	unit := units[vChoice("unit", 5)%len(units)]
+	zero := []string{"0", "0.0", "-0", "+0", ".0", "0e3", "00", "0.00"}[vChoice("zero", 8)]
+	val := append(append([]byte(t[1]), zero...), unit...)
+	keep := vBool("KeepCSS2")
+	vAssume(!(keep && zero == "0e3")) // recorded class C04-F24 (KeepCSS2 and an exponent), decided by VerifCSSNumber
+	out := verifDecl(t[0], val, &Minifier{KeepCSS2: keep})
+	vAssert(len(out) >= len(t[1]) && rcEq(out[:len(t[1])], []byte(t[1])), "leading keyword kept")
+	onum := out[len(t[1]):]
+	k := 0
+	for k < len(onum) && (refDigit(onum[k]) || onum[k] == '.' || onum[k] == '-' || onum[k] == '+') {
+		k++
+	}
+	vAssert(k > 0 && refParse(onum[:k]).zero, "still zero")
+	ok := false
+	for _, u := range units {
+		if rcEqFold(onum[k:], []byte(u)) {
+			ok = true
+		}
+	}
+	vAssert(ok, "a zero "+t[0]+" keeps a unit of its type: "+string(out))
+	vReach("end")
+}
+
+func rcEqFold(a, b []byte) bool {
+	if len(a) != len(b) {
+		return false
+	}
+	for i := range a {
+		x, y := a[i], b[i]
+		if 'A' <= x && x <= 'Z' {
+			x += 32
+		}
+		if 'A' <= y && y <= 'Z' {
+			y += 32
+		}
+		if x != y {
+			return false
+		}
+	}
+	return true
 }
